@@ -53,6 +53,7 @@ class FnContract:
         self.requires, self.ensures = [], []
         self.findings = []
         self.ascribe = []
+        self.pin_labels = []
         self.fn_decreases = None
         self.loops = {}      # n -> {"invariants": [Clause], "decreases": str, "iter": str}
         self.closures = {}   # n -> header text
@@ -166,6 +167,8 @@ def parse_spec(path):
             fn.ret = arg.strip()
         elif name == "trusted":
             fn.trusted = text or "trusted"
+        elif name == "pin-labels":
+            fn.pin_labels = arg.split()
         elif name == "rules":
             fn.rules = arg.split()
         elif name == "sig-extra":
